@@ -333,10 +333,10 @@ fn catch(f: impl FnOnce() -> Vec<String> + std::panic::UnwindSafe) -> Vec<String
 }
 
 fn comp_line_u(c: &UnixComponent) -> String {
-    format!("{} r{} n{} p{} c{} v{} l{}", hex(c.as_bytes()), c.is_root(), c.is_normal(), c.is_parent(), c.is_current(), c.is_valid(), c.len())
+    format!("{} r{} n{} p{} c{} v{} l{} e{}", hex(c.as_bytes()), c.is_root(), c.is_normal(), c.is_parent(), c.is_current(), c.is_valid(), c.len(), c.is_empty())
 }
 fn comp_line_w(c: &WindowsComponent) -> String {
-    format!("{} r{} n{} p{} c{} v{} l{} {}", hex(c.as_bytes()), c.is_root(), c.is_normal(), c.is_parent(), c.is_current(), c.is_valid(), c.len(), c.prefix_kind().map(|k| format!("{:?}", kind_of(&k))).unwrap_or_default())
+    format!("{} r{} n{} p{} c{} v{} l{} e{} x{} {}", hex(c.as_bytes()), c.is_root(), c.is_normal(), c.is_parent(), c.is_current(), c.is_valid(), c.len(), c.is_empty(), c.is_prefix(), c.prefix_kind().map(|k| format!("{:?}", kind_of(&k))).unwrap_or_default())
 }
 fn kind_of8(k: &Utf8WindowsPrefix) -> crate::spec::Kind {
     use crate::spec::Kind;
@@ -350,10 +350,10 @@ fn kind_of8(k: &Utf8WindowsPrefix) -> crate::spec::Kind {
     }
 }
 fn comp_line_u8(c: &Utf8UnixComponent) -> String {
-    format!("{} r{} n{} p{} c{} v{} l{}", hex(&c.as_str().tob()), c.is_root(), c.is_normal(), c.is_parent(), c.is_current(), c.is_valid(), c.len())
+    format!("{} r{} n{} p{} c{} v{} l{} e{}", hex(&c.as_str().tob()), c.is_root(), c.is_normal(), c.is_parent(), c.is_current(), c.is_valid(), c.len(), c.is_empty())
 }
 fn comp_line_w8(c: &Utf8WindowsComponent) -> String {
-    format!("{} r{} n{} p{} c{} v{} l{} {}", hex(&c.as_str().tob()), c.is_root(), c.is_normal(), c.is_parent(), c.is_current(), c.is_valid(), c.len(), c.prefix_kind().map(|k| format!("{:?}", kind_of8(&k))).unwrap_or_default())
+    format!("{} r{} n{} p{} c{} v{} l{} e{} x{} {}", hex(&c.as_str().tob()), c.is_root(), c.is_normal(), c.is_parent(), c.is_current(), c.is_valid(), c.len(), c.is_empty(), c.is_prefix(), c.prefix_kind().map(|k| format!("{:?}", kind_of8(&k))).unwrap_or_default())
 }
 
 /// alternate back / front until exhausted (then two more calls, which must stay `None`)
@@ -403,6 +403,23 @@ impl AsRefBytes for TypedComponent<'_> {
 impl AsRefBytes for Utf8TypedComponent<'_> {
     fn as_ref_bytes(&self) -> Vec<u8> {
         self.as_str().as_bytes().to_vec()
+    }
+}
+
+/// a typed component printed through the TYPED component's own accessors (is_valid and the Windows
+/// prefix fields do not exist on it and come from the wrapped component)
+fn comp_line_t(c: &TypedComponent) -> String {
+    let base = |v: bool| format!("{} r{} n{} p{} c{} v{} l{} e{}", hex(c.as_bytes()), c.is_root(), c.is_normal(), c.is_parent(), c.is_current(), v, c.len(), c.is_empty());
+    match c {
+        TypedComponent::Unix(x) => base(x.is_valid()),
+        TypedComponent::Windows(x) => format!("{} x{} {}", base(x.is_valid()), x.is_prefix(), x.prefix_kind().map(|k| format!("{:?}", kind_of(&k))).unwrap_or_default()),
+    }
+}
+fn comp_line_t8(c: &Utf8TypedComponent) -> String {
+    let base = |v: bool| format!("{} r{} n{} p{} c{} v{} l{} e{}", hex(&c.as_str().tob()), c.is_root(), c.is_normal(), c.is_parent(), c.is_current(), v, c.len(), c.is_empty());
+    match c {
+        Utf8TypedComponent::Unix(x) => base(x.is_valid()),
+        Utf8TypedComponent::Windows(x) => format!("{} x{} {}", base(x.is_valid()), x.is_prefix(), x.prefix_kind().map(|k| format!("{:?}", kind_of8(&k))).unwrap_or_default()),
     }
 }
 
@@ -632,8 +649,8 @@ fn t_typed(win: bool, s: &[u8], a: &[u8]) -> Vec<String> {
                     let pth = c.to_path();
                     let flag = if pth.is_windows() != win { "!VARIANT-CHANGED" } else { "" };
                     match c {
-                        TypedComponent::Unix(x) => format!("{}{}", flag, comp_line_u(&x)),
-                        TypedComponent::Windows(x) => format!("{}{}", flag, comp_line_w(&x)),
+                        TypedComponent::Unix(_) => format!("{}{}", flag, comp_line_t(&c)),
+                        TypedComponent::Windows(_) => format!("{}{}", flag, comp_line_t(&c)),
                     }
                 })
                 .collect::<Vec<_>>()
@@ -644,8 +661,8 @@ fn t_typed(win: bool, s: &[u8], a: &[u8]) -> Vec<String> {
             p.components()
                 .rev()
                 .map(|c| match c {
-                    TypedComponent::Unix(x) => comp_line_u(&x),
-                    TypedComponent::Windows(x) => comp_line_w(&x),
+                    TypedComponent::Unix(_) => comp_line_t(&c),
+                    TypedComponent::Windows(_) => comp_line_t(&c),
                 })
                 .collect::<Vec<_>>()
                 .join(",")
@@ -685,8 +702,8 @@ fn t_typed8(win: bool, s: &str, a: &str) -> Vec<String> {
                     let pth = c.to_path();
                     let flag = if pth.is_windows() != win { "!VARIANT-CHANGED" } else { "" };
                     match c {
-                        Utf8TypedComponent::Unix(x) => format!("{}{}", flag, comp_line_u8(&x)),
-                        Utf8TypedComponent::Windows(x) => format!("{}{}", flag, comp_line_w8(&x)),
+                        Utf8TypedComponent::Unix(_) => format!("{}{}", flag, comp_line_t8(&c)),
+                        Utf8TypedComponent::Windows(_) => format!("{}{}", flag, comp_line_t8(&c)),
                     }
                 })
                 .collect::<Vec<_>>()
@@ -697,8 +714,8 @@ fn t_typed8(win: bool, s: &str, a: &str) -> Vec<String> {
             p.components()
                 .rev()
                 .map(|c| match c {
-                    Utf8TypedComponent::Unix(x) => comp_line_u8(&x),
-                    Utf8TypedComponent::Windows(x) => comp_line_w8(&x),
+                    Utf8TypedComponent::Unix(_) => comp_line_t8(&c),
+                    Utf8TypedComponent::Windows(_) => comp_line_t8(&c),
                 })
                 .collect::<Vec<_>>()
                 .join(",")
